@@ -5,7 +5,9 @@
    invariant that C09 shows for every reachable value. *)
 From AS Require Import Base.
 From AS.Model Require Import Table Ops.
-From AS.Proofs Require Import TableProofs SliceProofs GenFns.
+From AS Require Import Effects.
+From AS.Model Require Import Sgr Tokenizer Render Scrub Parse StrOps FormatSpec Exec.
+From AS.Proofs Require Import TableProofs SliceProofs GenFns PadProofs ExecProofs InvariantProofs ReachableCorollaries.
 
 Section C04.
 Variable s : astr.
@@ -88,3 +90,22 @@ Proof.
   - vm_compute. repeat constructor; simpl; intuition congruence.
   - vm_compute. reflexivity.
 Qed.
+
+(* FOR EVERY REACHABLE VALUE (C09_reachable_value discharges the hypotheses): the k-th character of any
+   slice reports the same setting objects in the same order as the corresponding character of the source,
+   and nothing stays open past the end of the slice *)
+Theorem C04_reachable : forall p o (a b : option Z), reachable_ok p -> In o (objs p) ->
+  let s := o_val o in
+  let i := slice_idx (length (base s)) a 0 in let j := slice_idx (length (base s)) b (length (base s)) in
+  base (getitem_slice s a b) = str_slice (base s) i j
+  /\ (forall k, k < j - i -> settings_at_nat (getitem_slice s a b) k = settings_at_nat s (i + k))
+  /\ final_active (tbl (getitem_slice s a b)) = []
+  /\ WFv (getitem_slice s a b).
+Proof.
+  intros p o a b Hr Hin s i j.
+  destruct (reachable_value p o Hr Hin) as (W & _ & _ & _ & S & _ & _ & N & _).
+  split; [apply api_text|]. split; [now apply api_settings|]. split.
+  - apply api_closed; [exact S | apply N].
+  - now apply getitem_slice_WFv.
+Qed.
+Print Assumptions C04_reachable.
